@@ -74,7 +74,7 @@ type State struct {
 	// Marks are sticky gate bits set by a GateSpec.Mark hook when a pass edge is traversed. The value is the
 	// subject whose redefinition (re-entry of its defining block) resets the mark; nil = never reset.
 	Marks map[string]ssa.Value
-	Outer *State                   // state at the closure creation site (for nested exploration), for witness only
+	Outer *State // state at the closure creation site (for nested exploration), for witness only
 }
 
 // NewState creates an empty state for fn.
